@@ -73,7 +73,10 @@ def shrink_mismatch(exe, r, gates=()):
     def still(cands):
         res, bad, _ = run_suite(exe, cands, timeout=1, gates=gates)
         # a candidate that reads an undefined name is ill-formed unless the original did so too
-        badset = {id(b) for b in bad if b.status != "exit1:other" or r.status == "exit1:other"}
+        # ... and a candidate whose expected output contains a NUL byte (a %c of 0 made by the shrinker) or whose
+        # model status differs from the original's is a different failure, not a smaller form of this one
+        badset = {id(b) for b in bad if (b.status != "exit1:other" or r.status == "exit1:other")
+                  and ("\x00" not in b.stdout or "\x00" in r.stdout) and b.status == r.status}
         return [id(x) in badset for x in res]
     small = sh.shrink(r.sexp, still)
     res, bad, _ = run_suite(exe, [small], gates=gates)
